@@ -111,7 +111,6 @@ pub fn check_trace(s: &Script, tr: &Trace, rep: &mut Report) -> Outcome {
     for (oi, o) in tr.obs.iter().enumerate() {
         let now = o.vnow;
         let step = &s.steps[o.step];
-        let ring_pending_before_step = ring_pending.len();
         macro_rules! wit {
             () => {
                 json!({"script": s.describe(o.step), "flavor": tr.flavor.name(), "at_step": o.step, "tick_at": o.tick_at, "vnow": now,
